@@ -87,7 +87,7 @@ package component_definition
 //@ spec func MetaOK(m *Meta) bool = m != nil && m.Base != nil && m.dependentSet != nil && m.Raw != nil && RTypeOf(m.Value) != nil && m.Type != nil
 
 //@ func (*Meta).IsSelf
-//@ property C02
+//@ property C02 C06 C10
 //@ pure
 //@ requires [metas-built] m != nil && m.Base != nil && o != nil && o.Base != nil
 //@ assigns nothing
